@@ -4,7 +4,7 @@ from model import (ret_value_class, dstr, strip, fact_holds, mentions_field, men
                    const_value, walk)
 from rules import (guarded, calls_to, field_writes, who_may_write, who_may_call, full_range,
                    loops_over, every_iteration_passes, basename, origins, is_var, is_enum,
-                   lastname, canon_before_intern, skip_conditions_exact, dominated_by)
+                   lastname, canon_before_intern, skip_conditions_exact, dominated_by, justified, deep_resolve)
 
 SPLICE_EXEMPT = {
     'State::AddIn': 'manifest parser appends inputs one by one; the kind counters are assigned by '
@@ -237,6 +237,29 @@ def run(ctx):
                                                                      for o in origins(clp0, v)), True)
         ctx.check('C10.O1', ok, clp0.name, 'CLParser:include-note-dropped-as-filename', clp0.where(e),
                   'FilterInputFilename is consulted only for lines FilterShowIncludes did not recognise')
+    # ... and the only notes that are not recorded are the ones the documented heuristic names: IsSystemInclude answers
+    # true only where the (lower-cased) path contains one of the two Visual Studio installation markers.  The table is
+    # frozen: another marker is another set of dependencies silently dropped from the deps log
+    SYSTEM_MARKERS = {'program files', 'microsoft visual studio'}
+    isi = prog.fn('CLParser::IsSystemInclude')
+    seen_markers = set()
+
+    def marker_found(g, a, pol):
+        a = strip(a)
+        if not (pol is False and isinstance(a, dict) and a.get('k') == 'bin' and a.get('op') == '==' and 'npos' in dstr(a['r'])):
+            return False
+        l = strip(a['l'])
+        if not (isinstance(l, dict) and l.get('k') == 'call' and lastname(l.get('name')) == 'find' and l.get('args')):
+            return False
+        lit = strip(deep_resolve(g, l['args'][0]))
+        if isinstance(lit, dict) and lit.get('k') == 'str' and lit.get('v') in SYSTEM_MARKERS:
+            seen_markers.add(lit['v'])
+            return True
+        return False
+    self_call = {'k': 'call', 'fn': isi.id, 'name': isi.name, 'tk': 'bool',
+                 'args': [{'k': 'var', 'n': p_['n'], 'vk': 'param', 'ty': p_.get('ty')} for p_ in isi.params]}
+    ctx.check('C10.O1', justified(prog, isi, self_call, True, marker_found), isi.name, 'IsSystemInclude:wider-than-documented', isi.loc,
+              'a /showIncludes note is dropped as a system header only if its path contains one of %s' % sorted(SYSTEM_MARKERS))
     dp = prog.fn('DepfileParser::Parse')
     pushes = [e for e in dp.events('call') if lastname(e.get('name') or '').split('<')[0] in ('push_back', 'emplace_back') and
               mentions_field(e.get('recv'), 'DepfileParser::ins_')]
